@@ -184,7 +184,7 @@ pub unsafe extern "C" fn haystack_value_set_list_entry_at(
                 if index < list.len() {
                     match entry.as_ref() {
                         Some(entry) => {
-                            list.insert(index, entry.clone());
+                            list[index] = entry.clone();
                             return ResultType::TRUE;
                         }
                         None => new_error("Invalid Entry reference"),
